@@ -45,6 +45,7 @@ fn main() {
         "resource-run" => resource::run(rest),
         "stcore-gen" => stcore::gen(rest),
         "dbgwrite-run" => dbgwrite::run(rest),
+        "meshwrite-run" => dbgwrite::mesh_run(rest),
         "emit-run" => emit::run(rest),
         "projreg-run" => projreg::run(rest),
         "retainmgr-run" => retain::mgr_run(rest),
